@@ -214,6 +214,7 @@ func resetRunGlobals() {
 	rangeOver = map[*ssa.Range]SV{}
 	streamCount = map[*ssa.Function]int{}
 	ascendCount = map[*ssa.Function]int{}
+	interiorTypes = map[string]bool{}
 	inlineStack = nil
 }
 
